@@ -267,7 +267,9 @@ class Loops:
             self.assume_invs(ex, key, env, i, extra_inv)
             ex.assume(self.cond(ex, desc, i))
             ex.event('loop_iter', key, i)
-            bind(self.elem(ex, desc, i), i)
+            el = self.elem(ex, desc, i)
+            ex.event('loop_elem', key, i, el)
+            bind(el, i)
             pb = self.post_bind_axioms.get(key)
             if pb is not None:
                 for f in pb(ex, env, i):
